@@ -83,7 +83,7 @@ func c16positioned(c *core.Ctx) {
 			// must be under a non-empty-stack condition or after a switch on the top of the stack
 			guarded := false
 			for _, a := range cs.Stack {
-				if ifs, ok := a.(*ast.IfStmt); ok && (strings.Contains(core.ExprStr(ifs.Cond), "stack.Len() != 0") || core.ExprStr(ifs.Cond) == "s.slashPending") {
+				if ifs, ok := a.(*ast.IfStmt); ok && (strings.Contains(core.ExprStr(ifs.Cond), "stack.Len() != 0") || hasDisjunct(ifs.Cond, "s.slashPending") || hasDisjunct(ifs.Cond, "s.blockCommentOpen")) {
 					guarded = true // a non-empty lexeme stack / a pending slash: at least one byte was read
 				}
 			}
